@@ -64,6 +64,7 @@ fn main() {
         ("replay", "decoders") => decoders::replay(rest),
         ("replay", "taltext") => taltext::replay(rest),
         ("replay", "rtrpacing") => rtrpacing::replay(rest),
+        ("drive", "rtrpacing") => rtrpacing::drive(rest),
         ("replay", "rtrfanout") => rtrfanout::replay(rest),
         ("replay", "rtaval") => rtaval::replay(rest),
         ("cycle", "rtaval") => rtaval::cycle(rest),
